@@ -9,6 +9,8 @@ import (
 
 	"github.com/canopy-network/canopy/lib"
 	"github.com/canopy-network/canopy/store"
+	"github.com/cockroachdb/pebble/v2"
+	"github.com/cockroachdb/pebble/v2/vfs"
 
 	"verifharness/c08"
 	"verifharness/drv"
@@ -362,35 +364,50 @@ func RunSMT(o *drv.Out, v *Verifier, lim *limiter) {
 func RunStore(o *drv.Out, lim *limiter) {
 	r := o.Rng
 	u := c08.NewUniverse(160, o.Tier == "thorough")
-	cases := 8
+	cases := 9
 	if o.Tier == "thorough" {
-		cases = 40
+		cases = 42
 	}
 	for ci := 0; ci < cases; ci++ {
-		sti, err := store.NewStoreInMemory(lib.NewNullLogger())
-		if err != nil {
-			panic(err)
+		// what happens to the database between a commit and the read-only stores that serve proofs for it:
+		// nothing (memtable), a pebble Flush (the height's entries land in an sstable of their own), or Close + reopen
+		mode := []string{"memtable", "flush", "reopen"}[ci%3]
+		fs := vfs.NewMem()
+		open := func() *store.Store {
+			db, err := pebble.Open("c16", &pebble.Options{FS: fs, FormatMajorVersion: pebble.FormatColumnarBlocks, Logger: nullLog{},
+				BlockPropertyCollectors: store.VerifBlockPropertyCollectors()})
+			if err != nil {
+				panic(err)
+			}
+			st, e := store.NewStoreWithDB(lib.DefaultConfig(), db, nil, lib.NewNullLogger())
+			if e != nil {
+				panic(e)
+			}
+			return st
 		}
-		st := sti.(*store.Store)
-		o.Case(fmt.Sprintf("store-proof #%d", ci))
+		st := open()
+		o.Case(fmt.Sprintf("store-proof #%d (%s)", ci, mode))
 		o.Op("store", "ok")
 		var hist []string
 		rec := func(op, res string) { hist = append(hist, op); o.Op(op, res) }
 		state := map[int][]byte{}
 		type ver struct {
-			root  []byte
-			state map[int][]byte
+			root    []byte
+			state   map[int][]byte
+			deleted []int // keys deleted at this height (they must get non-membership proofs)
 		}
 		versions := map[uint64]ver{}
 		for b := 0; b < 3; b++ {
-			for w := 0; w < 5+r.Intn(30); w++ {
+			var deleted []int
+			for w := 0; w < 6+r.Intn(24); w++ {
 				i := r.Intn(len(u.Keys))
 				if u.Reserved(u.Keys[i].Bits) || u.Border[u.Keys[i].Bits] {
 					continue
 				}
-				if _, ok := state[i]; ok && r.Intn(3) == 0 {
+				if _, ok := state[i]; ok && r.Intn(2) == 0 {
 					st.Delete(u.Keys[i].User)
 					delete(state, i)
+					deleted = append(deleted, i)
 					rec("del "+drv.Hex(u.Keys[i].User), "ok")
 					continue
 				}
@@ -399,6 +416,24 @@ func RunStore(o *drv.Out, lim *limiter) {
 				st.Set(u.Keys[i].User, val)
 				state[i] = val
 				rec("set "+drv.Hex(u.Keys[i].User)+" "+drv.Hex(val), "ok")
+			}
+			// every height after the first also deletes and overwrites keys of earlier heights
+			n := 0
+			for i := range state {
+				if b > 0 && n < 4 {
+					n++
+					if n%2 == 0 {
+						st.Delete(u.Keys[i].User)
+						delete(state, i)
+						deleted = append(deleted, i)
+						rec("del "+drv.Hex(u.Keys[i].User), "ok")
+					} else {
+						val := []byte{byte(b), 0xEE}
+						st.Set(u.Keys[i].User, val)
+						state[i] = val
+						rec("set "+drv.Hex(u.Keys[i].User)+" "+drv.Hex(val), "ok")
+					}
+				}
 			}
 			root, e := st.Commit()
 			if e != nil {
@@ -409,7 +444,26 @@ func RunStore(o *drv.Out, lim *limiter) {
 			for k, val := range state {
 				snap[k] = val
 			}
-			versions[st.Version()] = ver{root, snap}
+			var stillGone []int
+			for _, i := range deleted {
+				if _, back := state[i]; !back {
+					stillGone = append(stillGone, i)
+				}
+			}
+			versions[st.Version()] = ver{root, snap, stillGone}
+			switch mode {
+			case "flush":
+				if err := st.DB().Flush(); err != nil {
+					panic(err)
+				}
+				rec("flush", "ok")
+			case "reopen":
+				if e := st.Close(); e != nil {
+					panic(e)
+				}
+				st = open()
+				rec("reopen", fmt.Sprintf("version %d", st.Version()))
+			}
 		}
 		var vs []uint64
 		for vn := range versions {
@@ -418,65 +472,60 @@ func RunStore(o *drv.Out, lim *limiter) {
 		sort.Slice(vs, func(i, j int) bool { return vs[i] < vs[j] })
 		for _, vn := range vs {
 			vv := versions[vn]
+			// every key of the state at vn (membership), every key deleted at vn and a few never-written keys (non-membership)
+			type q struct {
+				k          c08.UKey
+				val        []byte
+				membership bool
+			}
+			var qs []q
 			var idx []int
 			for i := range vv.state {
 				idx = append(idx, i)
 			}
 			sort.Ints(idx)
-			for q := 0; q < 4; q++ {
-				var k c08.UKey
-				var val []byte
-				membership := q%2 == 0 && len(idx) > 0
-				if membership {
-					i := idx[r.Intn(len(idx))]
-					k, val = u.Keys[i], vv.state[i]
-				} else {
-					for {
-						i := r.Intn(len(u.Keys))
-						if _, ok := vv.state[i]; !ok && !u.Reserved(u.Keys[i].Bits) {
-							k = u.Keys[i]
-							break
-						}
-					}
+			for _, i := range idx {
+				qs = append(qs, q{u.Keys[i], vv.state[i], true})
+			}
+			for _, i := range vv.deleted {
+				qs = append(qs, q{u.Keys[i], nil, false})
+			}
+			for n := 0; n < 3; {
+				i := r.Intn(len(u.Keys))
+				if _, ok := vv.state[i]; !ok && !u.Reserved(u.Keys[i].Bits) {
+					qs = append(qs, q{u.Keys[i], nil, false})
+					n++
 				}
+			}
+			for _, x := range qs {
 				m := "n"
-				if membership {
+				if x.membership {
 					m = "m"
 				}
-				op := fmt.Sprintf("sproof %d %s %s %s", vn, drv.Hex(k.User), drv.Hex(val), m)
-				res := drv.Recover(func() string {
-					ro, e := st.NewReadOnly(vn)
-					if e != nil {
-						return errKind(e)
-					}
-					roRoot, e := ro.Root()
-					if e != nil {
-						return errKind(e)
-					}
-					proof, e := ro.GetProof(k.User)
-					if e != nil {
-						return errKind(e)
-					}
-					verdict := "reject"
-					ok, e := ro.VerifyProof(k.User, val, membership, vv.root, proof)
-					if e != nil {
-						verdict = errKind(e)
-					} else if ok {
-						verdict = "accept"
-					}
-					if !bytes.Equal(roRoot, vv.root) {
-						o.Count("store:readonly-tree-root-differs-from-committed-root")
-					}
-					return fmt.Sprintf("roroot %s proof %s verdict %s", drv.Hex(roRoot), ShowProof(proof), verdict)
-				})
+				op := fmt.Sprintf("sproof %d %s %s %s", vn, drv.Hex(x.k.User), drv.Hex(x.val), m)
+				res := storeProof(st, vn, x.k.User, x.val, x.membership, vv.root)
 				rec(op, res)
-				o.Count("sproof:" + m + ":" + res[strings.LastIndex(res, " ")+1:])
+				o.Count("sproof:" + mode + ":" + m + ":" + res[strings.LastIndex(res, " ")+1:])
 				o.Nontrivial(fmt.Sprintf("store|%d|%s", ci, op))
-				if !strings.HasSuffix(res, "verdict accept") {
-					lim.fail("C16:readonly-store-proof-prefix",
-						fmt.Sprintf("NewReadOnly(%d).GetProof(%x) does not verify against the root committed for version %d (%s): %s", vn, k.User, vn, m, res[:min(len(res), 160)]),
-						map[string]any{"history": hist})
+				rootOK := strings.HasPrefix(res, "roroot "+drv.Hex(vv.root)+" ")
+				if strings.HasSuffix(res, "verdict accept") && rootOK {
+					continue
 				}
+				suffix := ""
+				if mode != "memtable" {
+					suffix = ":after-" + mode
+				}
+				sig := "C16:served-proof-does-not-verify" + suffix
+				if !rootOK {
+					sig = "C16:readonly-root-differs-from-committed" + suffix
+				}
+				if mode == "memtable" && !rootOK {
+					sig = "C16:readonly-store-proof-prefix" // the read-only store does not even see the committed tree
+				}
+				lim.fail(sig,
+					fmt.Sprintf("NewReadOnly(%d) [%s]: Root()/GetProof(%x) against the root Commit() returned for version %d (%s, committed root %x): %s",
+						vn, mode, x.k.User, vn, m, vv.root, res[:min(len(res), 120)]),
+					map[string]any{"history": hist, "between_commit_and_read": mode})
 			}
 		}
 		st.DB().Close()
